@@ -174,16 +174,17 @@ CONC_UNITS = {   # the building blocks of the exhaustive scope (variable 0 holds
 }
 
 
-def conc_exhaustive(f, depth):
-    """two threads, one handle each to the common payload, every pair of unit programs, every schedule in {0,1}^depth"""
+def conc_exhaustive(f, depth, per_case=64):
+    """two threads, one handle each to the common payload, every pair of unit programs, every schedule in {0,1}^depth
+    (at most per_case schedules in one case: the framework budgets about 50 ms per case)"""
     cases = []
     units = [u for u in CONC_UNITS if not (f == 'ptr' and ('write' in u or u in ('force', 'assign2')))]
     scheds = [' '.join(map(str, s)) for s in itertools.product((0, 1), repeat=depth)]
     for a in units:
         for b in units:
-            case = ['@c' + f, 'init 3 2 1 1'] + ['t 0 ' + o for o in CONC_UNITS[a]] + ['t 1 ' + o for o in CONC_UNITS[b]]
-            case += ['go ' + s for s in scheds]
-            cases.append(case)
+            head = ['@c' + f, 'init 3 2 1 1'] + ['t 0 ' + o for o in CONC_UNITS[a]] + ['t 1 ' + o for o in CONC_UNITS[b]]
+            for i in range(0, len(scheds), per_case):
+                cases.append(head + ['go ' + s for s in scheds[i:i + per_case]])
     return cases
 
 
@@ -388,17 +389,17 @@ class C09(Check):
                               note='every sequence of %d ops over 2 variables after `create 0 3` (%d-letter alphabet)' % (depth, len(al))))
         # concurrent: explicit schedules (baton passing at every atomic operation)
         for f in FLAVS:
-            cases = [gen_conc(rng, f) for _ in range(1500 if thorough else 250)]
+            cases = [gen_conc(rng, f) for _ in range(1500 if thorough else 500)]
             out.append(Stream('conc_' + f, cases, note='2-4 real threads, 1-3 generated schedules each (uniform, bursty, few preemptions)'))
         cases = self.conc_targeted(rng, 40 if thorough else 8)
         out.append(Stream('conc_targeted', cases, note='all threads write the common payload at once; drop racing write; copy racing drop; self assignment; random schedules'))
-        depth = 10 if thorough else 7
         cases = []
-        for f in (FLAVS if thorough else ('str', 'ptr')):
-            cases += conc_exhaustive(f, depth)
-        out.append(Stream('conc_exh', cases, note='2 threads x 1 handle, every pair of unit programs, every schedule in {0,1}^%d then to completion' % depth))
+        depths = {f: 10 for f in FLAVS} if thorough else {'str': 8, 'ptr': 8, 'var': 7, 'xml': 7}
+        for f in FLAVS:
+            cases += conc_exhaustive(f, depths[f])
+        out.append(Stream('conc_exh', cases, note='2 threads x 1 handle, every pair of unit programs, every schedule in {0,1}^d then to completion, d = %s' % depths))
         # free-running threads
-        cases = [gen_conc(rng, rng.choice(FLAVS), free=True) for _ in range(1200 if thorough else 200)]
+        cases = [gen_conc(rng, rng.choice(FLAVS), free=True) for _ in range(1200 if thorough else 400)]
         out.append(Stream('conc_free', cases, note='same scenarios, threads released together and left to the OS scheduler, 2-5 repetitions each'))
         self._tsan_cases = cases + [c for c in self.conc_targeted(rng, 0)]
         return out
